@@ -676,6 +676,12 @@ static int cif_value_clone_table(struct table_value_s *value, struct table_value
                     }
 
                     FAILURE_HANDLER(hash):
+                    if (temp.map.head == new_entry) {
+                        /* uthash could not create the table for its first entry, which it nevertheless made the head */
+                        free(new_entry->hh.tbl);
+                        temp.map.head = NULL;
+                    }
+                    cif_value_clean(new_value);
                     free(new_entry->key_orig);
                 }
                 free(new_entry->key);
